@@ -1,6 +1,8 @@
 import Amgcl.Proofs.SchedKernels
 import Amgcl.Proofs.SchedGersh
 import Amgcl.Proofs.SchedMicro
+import Amgcl.Proofs.SchedSort
+import Amgcl.Proofs.SchedLevelsN
 /-!
 # C09 — results do not depend on the number of threads or their interleaving
 
@@ -10,6 +12,15 @@ Level-scheduled kernels (`gauss_seidel::parallel_sweep`, `ilu_solve::sptr_solve`
 
 * `tasks_partition`   for every thread count `nt ≥ 1` the tasks of a level, in thread order, are exactly the rows
   of that level in increasing order (all level vectors, all sizes).
+* `counting_sort_eq_spec`, `counting_sort_is_stable_sort`, `counting_sort_level_segments`, `counting_sort_in_bounds`   step 2 of the constructors
+  as the code does it (`Model/ScheduleSort.lean`: histogram, in-place `std::partial_sum`, scatter
+  `order[start[level[i]]++] = i`, `std::rotate`) yields, for every level vector, a permutation of `0..n-1` sorted by
+  level with ties in increasing row order — the stable (merge) sort of the rows by level — and `start[lev]` = number of
+  rows below level `lev`.  `schedule_literal_eq_spec`: steps 2–4 executed statement by statement (`scheduleLit`, what
+  the driver runs) give the task table `tasks` all other theorems speak about; `levels_literal_eq_spec`,
+  `constructor_literal_eq_spec`: the same from the pattern on, with `nlev` accumulated inside the loop of step 1; `lit_*`: the main theorems restated for
+  the literal schedule (every row exactly once, dependencies in strictly earlier levels, no conflict inside a level,
+  every admitted execution = serial).
 * `ilu_levels_no_conflict`, `gs_levels_no_conflict`   a row never shares a level with a row whose unknown it reads;
   dependencies always point to strictly lower levels.  ILU: every strictly triangular pattern.  Gauss–Seidel:
   **every** pattern for the level loop of `repo_patches/fix_gs_parallel_levels.patch` (`gsLevels`).
@@ -183,6 +194,179 @@ theorem drf_ilu (lower : Bool) (P : Pattern) (hP : StrictTri lower P) (nt : Nat)
     i ≠ j ∧ i ∉ P.getD j [] ∧ j ∉ P.getD i [] :=
   drf P lower _ (iluLevels_respects lower P hP) nt hnt lev hlev t1 t2 h1 h2 hne i hi j hj
 
+/-! ## steps 2–4 of the constructors as the code does them -/
+
+/-- **Step 2, statement by statement = its specification**, for every level vector: after the histogram, the in-place
+`std::partial_sum`, the scatter loop `order[start[level[i]]++] = i` and `std::rotate(…); start[0] = 0`, the array
+`order` holds the rows of level 0, then those of level 1, …, each level in increasing row order, and `start[lev]` is
+the number of rows whose level is below `lev` (`lev = 0..nlev`).  The same for the variant `countingSort` the driver
+has always executed next to the specification. -/
+theorem counting_sort_eq_spec (level : Array Nat) :
+    countingSortLit level = ((order level).toArray, ((List.range (nlev level + 1)).map (start level)).toArray)
+    ∧ countingSort level = (order level, (List.range (nlev level + 1)).map (start level)) :=
+  ⟨countingSortLit_eq level, countingSort_eq level⟩
+
+example : countingSortLit #[0, 1, 0, 2, 1, 0, 0] = (#[0, 2, 5, 6, 1, 4, 3], #[0, 4, 6, 7]) := by decide +kernel
+example : order #[0, 1, 0, 2, 1, 0, 0] = [0, 2, 5, 6, 1, 4, 3] := by decide
+
+/-- **The counting sort is the stable sort of the rows by level**: for every level vector its `order` output is a
+permutation of `0..n-1` (every row exactly once), sorted by level, rows of equal level in increasing row order; it is
+the list `List.mergeSort` (a stable sort: `List.sublist_mergeSort`) produces from `0..n-1` under "`level[a] ≤
+level[b]`". -/
+theorem counting_sort_is_stable_sort (level : Array Nat) :
+    ((countingSortLit level).1.toList).Perm (List.range level.size)
+    ∧ ((countingSortLit level).1.toList).Pairwise
+        (fun a b => level.getD a 0 < level.getD b 0 ∨ (level.getD a 0 = level.getD b 0 ∧ a < b))
+    ∧ (countingSortLit level).1.toList
+        = (List.range level.size).mergeSort (fun a b => decide (level.getD a 0 ≤ level.getD b 0)) := by
+  rw [countingSortLit_eq]
+  exact ⟨order_perm level, order_pairwise level, order_eq_mergeSort level⟩
+
+example : (List.range 7).mergeSort (fun a b => decide (#[0, 1, 0, 2, 1, 0, 0].getD a 0 ≤ #[0, 1, 0, 2, 1, 0, 0].getD b 0))
+    = [0, 2, 5, 6, 1, 4, 3] :=
+  (counting_sort_is_stable_sort #[0, 1, 0, 2, 1, 0, 0]).2.2.symm.trans (by decide +kernel)
+
+/-- the rotated `start` delimits the levels inside `order`: the rows of level `lev` are `order[start[lev] ..
+start[lev+1])`, and `start[lev+1] - start[lev]` (the `lev_size` of step 3) is their number -/
+theorem counting_sort_level_segments (level : Array Nat) (lev : Nat) (hlev : lev < nlev level) :
+    let order := (countingSortLit level).1
+    let start := (countingSortLit level).2
+    ((order.toList.drop (start.getD lev 0)).take (start.getD (lev + 1) 0 - start.getD lev 0)) = levelRows level lev
+    ∧ start.getD (lev + 1) 0 - start.getD lev 0 = (levelRows level lev).length
+    ∧ start.getD 0 0 = 0 ∧ start.getD (nlev level) 0 = level.size := by
+  simp only [countingSortLit_eq]
+  rw [start_array_getD level lev (by omega), start_array_getD level (lev + 1) (by omega),
+    start_array_getD level 0 (by omega), start_array_getD level (nlev level) (by omega)]
+  refine ⟨(levelRows_eq_segment level lev hlev).symm, by rw [start_succ]; omega, start_zero level, ?_⟩
+  rw [← flatMap_levelRows_length]
+  exact order_length level
+
+/-- **No out-of-bounds access in steps 2–4** (the model's arrays ignore out-of-range writes and read 0 out of range,
+so this is a separate statement): for every level vector, in every iteration the histogram increment
+`++start[level[i]+1]`, the read/increment of `start[level[i]]` and the write `order[start[level[i]]] = i` are in
+bounds; and every `task(beg, end)` of step 3 satisfies `beg ≤ end ≤ n`, so step 4 reads `order[r]` in bounds. -/
+theorem counting_sort_in_bounds (level : Array Nat) :
+    (∀ k, k < level.size →
+      level.getD k 0 + 1 < (csHist level).size ∧
+      (let os := (List.range k).foldl (scatterStep level)
+          (Array.replicate level.size 0, csPsum (csHist level) (nlev level + 1))
+       level.getD k 0 < os.2.size ∧ os.2.getD (level.getD k 0) 0 < os.1.size))
+    ∧ ∀ nt tid lev, tid < nt → lev < nlev level →
+      (let t := ((tasksLit (countingSortLit level).2 (nlev level) nt).getD tid []).getD lev (0, 0)
+       t.1 ≤ t.2 ∧ t.2 ≤ (countingSortLit level).1.size) :=
+  ⟨fun k hk => scatter_in_bounds level k hk,
+   fun nt tid lev htid hlev => tasksLit_in_bounds level nt tid lev htid hlev⟩
+
+/-- **Steps 2–4 as the code runs them produce the task table of the specification**: for every level vector and every
+thread count, gathering `order[t.beg .. t.end)` for the `task(beg, end)` that step 3 computes from the rotated `start`
+gives, for thread `tid` and level `lev`, the `tid`-th chunk of the rows of level `lev`.  Hence every theorem of this
+file about `tasks level nt` is a theorem about `scheduleLit level nt` — the function the driver executes and whose
+output is compared with the real `tasks`/`ord` tables. -/
+theorem schedule_literal_eq_spec (level : Array Nat) (nt : Nat) : scheduleLit level nt = tasks level nt :=
+  scheduleLit_eq_tasks level nt
+
+example : scheduleLit #[0, 1, 0, 0, 1, 0, 0] 3 = [[[0, 2], [1]], [[3, 5], [4]], [[6], []]] := by decide +kernel
+example : tasksLit (countingSortLit #[0, 1, 0, 0, 1, 0, 0]).2 2 3 = [[(0, 2), (5, 6)], [(2, 4), (6, 7)], [(4, 5), (7, 7)]] := by
+  decide +kernel
+
+/-- **Step 1 with the accumulator `nlev = std::max(nlev, l+1)`**: for every pattern the loop of step 1 as the code
+runs it (`levelsGenN`: level vector and `nlev` threaded through the loop) returns the level vector of `levelsGen` and
+`nlev` = 1 + the largest level of the *final* vector — a row's level is final once the row has been visited, because
+the repair loop only raises rows that are visited later.  All three instances: ILU, Gauss–Seidel unpatched, repaired. -/
+theorem levels_literal_eq_spec (b : Bool) (P : Pattern) :
+    iluLevelsN b P = (iluLevels b P, nlev (iluLevels b P))
+    ∧ gsLevelsAsIsN b P = (gsLevelsAsIs b P, nlev (gsLevelsAsIs b P))
+    ∧ gsLevelsN b P = (gsLevels b P, nlev (gsLevels b P)) :=
+  ⟨iluLevelsN_eq b P, gsLevelsAsIsN_eq b P, gsLevelsN_eq b P⟩
+
+example : gsLevelsN true #[[0, 1], [1, 2], [0, 2], [3]] = (#[0, 1, 2, 0], 3) := by decide +kernel
+
+/-- **The constructors from the pattern to the task table, statement by statement** (step 1 with its `nlev`, counting
+sort sized by that `nlev`, chunking, gathering through `order`) compute the task table `tasks (levels P) nt` the
+theorems of this file speak about — every pattern, every thread count, both kernels, both directions. -/
+theorem constructor_literal_eq_spec (b : Bool) (P : Pattern) (nt : Nat) :
+    constructorLit (gsLevelsN b P) nt = tasks (gsLevels b P) nt
+    ∧ constructorLit (gsLevelsAsIsN b P) nt = tasks (gsLevelsAsIs b P) nt
+    ∧ constructorLit (iluLevelsN b P) nt = tasks (iluLevels b P) nt := by
+  rw [gsLevelsN_eq, gsLevelsAsIsN_eq, iluLevelsN_eq]
+  exact ⟨scheduleLit_eq_tasks _ nt, scheduleLit_eq_tasks _ nt, scheduleLit_eq_tasks _ nt⟩
+
+example : constructorLit (gsLevelsN true #[[0, 1], [1, 2], [0, 2], [3], [4, 3], [5]]) 4
+    = [[[0], [1], [2]], [[3], [4], []], [[5], [], []], [[], [], []]] := by decide +kernel
+
+/-- **every row exactly once** (literal schedule): for every `nt ≥ 1`, running the levels one after the other and the
+threads of a level in thread order visits the rows in the order `order` — a permutation of `0..n-1`; the tasks of a
+level are the rows of that level, split over the threads in increasing order. -/
+theorem lit_every_row_exactly_once (level : Array Nat) (nt : Nat) (hnt : 1 ≤ nt) :
+    (threadOrderSchedule (scheduleLit level nt) (nlev level)).Perm (List.range level.size)
+    ∧ threadOrderSchedule (scheduleLit level nt) (nlev level) = (countingSortLit level).1.toList
+    ∧ ∀ lev, lev < nlev level → (levelTasks (scheduleLit level nt) lev).flatten = levelRows level lev := by
+  rw [scheduleLit_eq_tasks, threadOrderSchedule_tasks level nt hnt, countingSortLit_eq]
+  exact ⟨order_perm level, rfl, fun lev hlev => levelTasks_flatten level nt hnt lev hlev⟩
+
+/-- **dependencies are in strictly earlier levels** (literal schedule, repaired Gauss–Seidel level loop, every
+pattern): if row `i` is executed by thread `t` in level `lev` and reads `x[c]` (`c ≠ i` a stored column of row `i`),
+then row `c` is executed in some level `lev' ≠ lev`, with `lev' < lev` iff the serial sweep visits `c` before `i`. -/
+theorem lit_gs_dependencies_in_other_levels (fwd : Bool) (P : Pattern) (nt : Nat) (hnt : 1 ≤ nt)
+    (t lev : Nat) (ht : t < nt) (hlev : lev < nlev (gsLevels fwd P))
+    (i : Nat) (hi : i ∈ ((scheduleLit (gsLevels fwd P) nt).getD t []).getD lev [])
+    (c : Nat) (hc : c ∈ P.getD i []) (hcN : c < P.size) (hne : c ≠ i) :
+    ∃ t' lev', t' < nt ∧ lev' < nlev (gsLevels fwd P)
+      ∧ c ∈ ((scheduleLit (gsLevels fwd P) nt).getD t' []).getD lev' []
+      ∧ (before fwd c i = true → lev' < lev) ∧ (before fwd i c = true → lev < lev') ∧ lev' ≠ lev := by
+  rw [scheduleLit_eq_tasks] at hi ⊢
+  obtain ⟨hiN, hil⟩ := mem_task _ nt t lev hnt ht hlev i hi
+  have hcN' : c < (gsLevels fwd P).size := by rw [gsLevels_size]; exact hcN
+  obtain ⟨t', ht', hmem⟩ := exists_task (gsLevels fwd P) nt hnt c hcN'
+  have h := gs_levels_no_conflict fwd P i (by rw [← gsLevels_size fwd P]; exact hiN) c hc hcN hne
+  rw [hil] at h
+  exact ⟨t', _, ht', lt_nlev _ c hcN', hmem, h.1, h.2.1, h.2.2⟩
+
+/-- the same for the ILU triangular solves (every strictly triangular pattern): everything a row reads is computed
+in a strictly earlier level -/
+theorem lit_ilu_dependencies_in_earlier_levels (lower : Bool) (P : Pattern) (hP : StrictTri lower P) (nt : Nat)
+    (hnt : 1 ≤ nt) (t lev : Nat) (ht : t < nt) (hlev : lev < nlev (iluLevels lower P))
+    (i : Nat) (hi : i ∈ ((scheduleLit (iluLevels lower P) nt).getD t []).getD lev [])
+    (c : Nat) (hc : c ∈ P.getD i []) (hcN : c < P.size) :
+    ∃ t' lev', t' < nt ∧ lev' < lev
+      ∧ c ∈ ((scheduleLit (iluLevels lower P) nt).getD t' []).getD lev' [] := by
+  rw [scheduleLit_eq_tasks] at hi ⊢
+  obtain ⟨hiN, hil⟩ := mem_task _ nt t lev hnt ht hlev i hi
+  have hcN' : c < (iluLevels lower P).size := by rw [iluLevels_size]; exact hcN
+  obtain ⟨t', ht', hmem⟩ := exists_task (iluLevels lower P) nt hnt c hcN'
+  have h := ilu_levels_no_conflict lower P hP i (by rw [← iluLevels_size lower P]; exact hiN) c hc hcN
+  rw [hil] at h
+  exact ⟨t', _, ht', h, hmem⟩
+
+/-- **no conflict inside a level** (literal schedule): two different threads never touch a common location in the
+same level — for any level vector that respects the dependencies (`gsLevels`: all patterns; `iluLevels`: strictly
+triangular patterns; see `lit_drf_gs`, `lit_drf_ilu`). -/
+theorem lit_drf (P : Pattern) (fwd : Bool) (level : Array Nat) (hdep : RespectsDeps (fun i => P.getD i []) fwd level)
+    (nt : Nat) (hnt : 1 ≤ nt) (lev : Nat) (hlev : lev < nlev level)
+    (t1 t2 : Nat) (h1 : t1 < nt) (h2 : t2 < nt) (hne : t1 ≠ t2)
+    (i : Nat) (hi : i ∈ ((scheduleLit level nt).getD t1 []).getD lev [])
+    (j : Nat) (hj : j ∈ ((scheduleLit level nt).getD t2 []).getD lev []) :
+    i ≠ j ∧ i ∉ P.getD j [] ∧ j ∉ P.getD i [] := by
+  rw [scheduleLit_eq_tasks, tasks_getD_getD level nt _ lev (by assumption) hlev] at hi hj
+  exact drf P fwd level hdep nt hnt lev hlev t1 t2 h1 h2 hne i hi j hj
+
+theorem lit_drf_gs (fwd : Bool) (P : Pattern) (nt : Nat) (hnt : 1 ≤ nt) (lev : Nat)
+    (hlev : lev < nlev (gsLevels fwd P)) (t1 t2 : Nat) (h1 : t1 < nt) (h2 : t2 < nt) (hne : t1 ≠ t2)
+    (i : Nat) (hi : i ∈ ((scheduleLit (gsLevels fwd P) nt).getD t1 []).getD lev [])
+    (j : Nat) (hj : j ∈ ((scheduleLit (gsLevels fwd P) nt).getD t2 []).getD lev []) :
+    i ≠ j ∧ i ∉ P.getD j [] ∧ j ∉ P.getD i [] :=
+  lit_drf P fwd _ (gsLevels_respects fwd P) nt hnt lev hlev t1 t2 h1 h2 hne i hi j hj
+
+theorem lit_drf_ilu (lower : Bool) (P : Pattern) (hP : StrictTri lower P) (nt : Nat) (hnt : 1 ≤ nt) (lev : Nat)
+    (hlev : lev < nlev (iluLevels lower P)) (t1 t2 : Nat) (h1 : t1 < nt) (h2 : t2 < nt) (hne : t1 ≠ t2)
+    (i : Nat) (hi : i ∈ ((scheduleLit (iluLevels lower P) nt).getD t1 []).getD lev [])
+    (j : Nat) (hj : j ∈ ((scheduleLit (iluLevels lower P) nt).getD t2 []).getD lev []) :
+    i ≠ j ∧ i ∉ P.getD j [] ∧ j ∉ P.getD i [] :=
+  lit_drf P lower _ (iluLevels_respects lower P hP) nt hnt lev hlev t1 t2 h1 h2 hne i hi j hj
+
+example : ((scheduleLit (gsLevels true #[[0, 1], [1, 2], [0, 2], [3]]) 4).getD 0 []).getD 0 [] = [0]
+    ∧ ((scheduleLit (gsLevels true #[[0, 1], [1, 2], [0, 2], [3]]) 4).getD 1 []).getD 0 [] = [3] := by decide +kernel
+
 /-! ## every interleaving yields the serial result -/
 section gs
 set_option linter.unusedSectionVars false
@@ -344,6 +528,63 @@ example : LevelwiseMicro (gsProg (⟨2, #[[(0, 1)], [(1, 1)]]⟩ : CRS Int) #[4,
     refine MSteps.step (MStep.store _ [] _ 0 [] []) ?_
     exact MSteps.refl _
   · simp [MFinal]
+
+/-! ## the main theorems for the schedule as the constructors compute it -/
+section lit
+set_option linter.unusedSectionVars false
+variable {K : Type} [Add K] [Mul K] [Sub K] [Zero K] [One K] [Div K]
+
+/-- **Gauss–Seidel, literal schedule**: with the task table computed statement by statement (counting sort, chunking
+by positions into `order`), every execution the skeleton admits equals the serial sweep — every pattern, every
+`nt ≥ 1`, any carrier, no algebraic law. -/
+theorem lit_gs_any_interleaving_eq_serial (fwd : Bool) (A : CRS K) (rhs : Vec K) (nt : Nat) (hnt : 1 ≤ nt)
+    (σ : List Nat)
+    (hσ : Exec gsExpectedSkeleton (scheduleLit (gsLevels fwd (pattern A)) nt) (nlev (gsLevels fwd (pattern A))) σ)
+    (x : Vec K) : gsParallelSweep A rhs σ x = gsSerialSweep fwd A rhs x := by
+  rw [scheduleLit_eq_tasks] at hσ
+  exact gs_any_interleaving_eq_serial fwd A rhs nt hnt σ hσ x
+
+/-- … at the granularity of single loads and stores -/
+theorem lit_gs_any_load_store_interleaving_eq_serial (fwd : Bool) (A : CRS K) (rhs : Vec K) (nt : Nat) (hnt : 1 ≤ nt)
+    (x x'' : Vec K) (hx : x.size = A.nrows)
+    (hrun : LevelwiseMicro (gsProg A rhs) (scheduleLit (gsLevels fwd (pattern A)) nt)
+      (List.range (nlev (gsLevels fwd (pattern A)))) x x'') :
+    x'' = gsSerialSweep fwd A rhs x := by
+  rw [scheduleLit_eq_tasks] at hrun
+  exact gs_any_load_store_interleaving_eq_serial fwd A rhs nt hnt x x'' hx hrun
+
+/-- **ILU triangular solves, literal schedule**: every admitted execution equals the row-wise serial loop, bit for bit -/
+theorem lit_ilu_any_interleaving_eq_rowwise (lower : Bool) (A : CRS K) (D : Vec K) (hA : StrictTri lower (pattern A))
+    (nt : Nat) (hnt : 1 ≤ nt) (σ : List Nat)
+    (hσ : Exec iluExpectedSkeleton (scheduleLit (iluLevels lower (pattern A)) nt)
+      (nlev (iluLevels lower (pattern A))) σ)
+    (x : Vec K) : iluParallelHalf lower A D σ x = runRows (iluRow lower A D) (rowOrder lower A.nrows) x := by
+  rw [scheduleLit_eq_tasks] at hσ
+  exact ilu_any_interleaving_eq_rowwise lower A D hA nt hnt σ hσ x
+
+theorem lit_ilu_any_load_store_interleaving_eq_rowwise (lower : Bool) (A : CRS K) (D : Vec K)
+    (hA : StrictTri lower (pattern A)) (nt : Nat) (hnt : 1 ≤ nt) (x x'' : Vec K) (hx : x.size = A.nrows)
+    (hrun : LevelwiseMicro (iluProg lower A D) (scheduleLit (iluLevels lower (pattern A)) nt)
+      (List.range (nlev (iluLevels lower (pattern A)))) x x'') :
+    x'' = runRows (iluRow lower A D) (rowOrder lower A.nrows) x := by
+  rw [scheduleLit_eq_tasks] at hrun
+  exact ilu_any_load_store_interleaving_eq_rowwise lower A D hA nt hnt x x'' hx hrun
+
+end lit
+
+/-- **ILU triangular solves, literal schedule**, against `serial_solve` (commutative ring) -/
+theorem lit_ilu_any_interleaving_eq_serial {K : Type} [Field K] (lower : Bool) (A : CRS K) (D : Vec K)
+    (hA : StrictTri lower (pattern A)) (nt : Nat) (hnt : 1 ≤ nt) (σ : List Nat)
+    (hσ : Exec iluExpectedSkeleton (scheduleLit (iluLevels lower (pattern A)) nt)
+      (nlev (iluLevels lower (pattern A))) σ)
+    (x : Vec K) : iluParallelHalf lower A D σ x = iluSerialHalf lower A D x := by
+  rw [scheduleLit_eq_tasks] at hσ
+  exact ilu_any_interleaving_eq_serial lower A D hA nt hnt σ hσ x
+
+/-- non-vacuity: thread order inside every level is an execution the skeleton admits for the literal task table
+(4 threads, non-symmetric 3×3 pattern) -/
+example : isExec gsExpectedSkeleton (scheduleLit (gsLevels true #[[0, 1], [1, 2], [0, 2]]) 4)
+    (nlev (gsLevels true #[[0, 1], [1, 2], [0, 2]])) [0, 1, 2] = true := by decide +kernel
 
 /-! ## reductions -/
 section gersh
